@@ -4,7 +4,7 @@ cd "$(dirname "$0")" || exit 2
 fail=0
 for f in spec/*.tla; do
   m=$(basename "$f" .tla)
-  (cd spec && java -cp /opt/veriftools/tla/tla2tools.jar:/opt/veriftools/tla/CommunityModules-deps.jar tla2sany.SANY "$m.tla" >/tmp/sany.$$ 2>&1) || { echo "SANY failed: $m"; tail -5 /tmp/sany.$$; fail=1; }
+  (cd spec && java -DTLA-Library=/opt/veriftools/tlapm/lib/tlapm/stdlib -cp /opt/veriftools/tla/tla2tools.jar:/opt/veriftools/tla/CommunityModules-deps.jar tla2sany.SANY "$m.tla" >/tmp/sany.$$ 2>&1) || { echo "SANY failed: $m"; tail -5 /tmp/sany.$$; fail=1; }
   if grep -q "Fatal errors\|\*\*\* Errors" /tmp/sany.$$; then echo "SANY errors: $m"; grep -A3 "Errors" /tmp/sany.$$ | head; fail=1; fi
 done
 rm -f /tmp/sany.$$
